@@ -217,6 +217,26 @@ def features(tpl, L, I):
         return any(k[0] == 'T' and (len(k[1]) == 1 or single_child_interior(k)) for k in kids)
     if single_child_interior(tpl):
         f.add('single_child_interior')
+    if depth(tpl) >= 4:
+        f.add('depth4')
+
+    # a one-key FIRST leaf of a bottom-level node that is reached through non-first children: emptying it makes the
+    # "first bucket went away" status travel up through that many levels before it is resolved
+    def nonfirst(n, steps):
+        if n[0] != 'T':
+            return
+        kids = n[1][::2]
+        if kids[0][0] == 'B':
+            if len(kids[0][1]) == 1 and steps >= 1:
+                f.add('nonfirst_bottom_first_leaf_1')
+            if len(kids[0][1]) == 1 and steps >= 2:
+                f.add('two_nonfirst_steps_first_leaf_1')
+            return
+        for i, k in enumerate(kids):
+            nonfirst(k, steps + (1 if i else 0))
+    if tpl[0] == 'T':
+        for i, k in enumerate(tpl[1][::2]):
+            nonfirst(k, 1 if i else 0)
     return f
 
 
@@ -313,7 +333,8 @@ def stratify(shapes, L, I, want=None):
     order = sorted(shapes, key=lambda s: (n_ranks(s), len(repr(s)), repr(s)))
     for s in order:
         for f in features(s, L, I):
-            core.setdefault(f, s)
+            if want is None or f in want:
+                core.setdefault(f, s)
     out = []
     for f in sorted(core):
         if core[f] not in out:
